@@ -43,6 +43,34 @@ Theorem C11_old_set_until_rebuild_finished :
     In q (rebuild_during c k b p) -> published q = published p.
 Proof. exact thm_rebuild_during. Qed.
 
+(** The status table is part of the served set: after every history the identity the peer carries -
+    the program_start / nagios_pid / version row [GET status] answers with - is the identity of
+    the backend process that had the served object set version, never the one of another process
+    (old objects with the restarted process's status row would be a mixture) ... *)
+Theorem C11_status_row_of_served_set :
+  forall (c : cfg) (evs : list event),
+    c_early c = false ->
+    let w := run c evs in
+    forall v, published (snd w) = Some v ->
+      nth_error (idents_of evs) (N.to_nat v) = Some (ident (snd w)).
+Proof. exact thm_status_of_served_set. Qed.
+
+(** ... also while a rebuild runs, at every failure position ... *)
+Theorem C11_old_status_until_rebuild_finished :
+  forall (c : cfg) (k : option nat) (b : backend) (p q : peer),
+    c_early c = false -> In q (rebuild_during c k b p) -> served_ident q = served_ident p.
+Proof. exact thm_status_during_rebuild. Qed.
+
+(** ... and every cycle ends with the old set and its identity, with nothing, or with the backend's
+    current set and current identity. *)
+Theorem C11_cycle_keeps_set_and_status_together :
+  forall (c : cfg) (f : tickflags) (b : backend) (p : peer),
+    c_early c = false ->
+    (published (tick c f b p) = published p /\ ident (tick c f b p) = ident p) \/
+    published (tick c f b p) = None \/
+    (published (tick c f b p) = Some (b_ver b) /\ ident (tick c f b p) = b_ident b).
+Proof. exact pid_ok_tick. Qed.
+
 (** rebuild_complete: a rebuild none of whose queries fails publishes the backend's current
     object set, stores its identity and reports the backend up without error. *)
 Theorem C11_rebuild_complete :
@@ -124,6 +152,9 @@ Proof. split; [exact thm_late_identity_witness|]. vm_compute. repeat split. Qed.
 Print Assumptions C11_publish_atomic.
 Print Assumptions C11_cycle_publishes_old_none_or_new.
 Print Assumptions C11_old_set_until_rebuild_finished.
+Print Assumptions C11_status_row_of_served_set.
+Print Assumptions C11_old_status_until_rebuild_finished.
+Print Assumptions C11_cycle_keeps_set_and_status_together.
 Print Assumptions C11_rebuild_complete.
 Print Assumptions C11_failed_rebuild_reported.
 Print Assumptions C11_up_means_complete_set.
